@@ -3,9 +3,11 @@
 in its worktree, then run the listed checks (default: the property itself) against /repo with the patch applied."""
 import json, os, shutil, subprocess, sys, time
 prop, n = sys.argv[1], sys.argv[2]
-checks = sys.argv[3:] or [prop]
-wt = f"/tmp/mut/{prop}/wt" if os.path.isdir(f"/tmp/mut/{prop}/wt") else f"/tmp/mut/{prop}"
-out = f"/tmp/mut/{prop}/out"
+checks = [a for a in sys.argv[3:] if not a.startswith("--")] or [prop]
+BASE = os.environ.get("MUT_BASE", "/tmp/mut")      # round 2 lives in /tmp/mut2
+LABEL = os.environ.get("MUT_LABEL", n)             # directory suffix under /verif/seeded
+wt = f"{BASE}/{prop}/wt" if os.path.isdir(f"{BASE}/{prop}/wt") else f"{BASE}/{prop}"
+out = f"{BASE}/{prop}/out"
 env = dict(os.environ, GOFLAGS="-mod=mod", GOPROXY="off", GOSUMDB="off", GOTOOLCHAIN="local")
 def sh(cmd, cwd=None, timeout=1800):
     p = subprocess.run(cmd, cwd=cwd, env=env, shell=True, stdout=subprocess.PIPE, stderr=subprocess.STDOUT, text=True, timeout=timeout)
@@ -35,12 +37,13 @@ def run_demo():
     if gotests:
         placed = place()
         pkgs = " ".join(sorted(set("./" + p if p != "." else "." for p, _ in placed))) or "."
-        rc, o = sh(f"go test -vet=off -count=1 -run '{RUNPAT}' {pkgs}", wt, timeout=3000)
+        race = "-race " if prop == "C16" else ""
+        rc, o = sh(f"go test {race}-vet=off -count=1 -run '{RUNPAT}' {pkgs}", wt, timeout=3000)
         place(remove=True)
         ok = ok and rc == 0; outp += o
     if scripts and not gotests:
         for sc in scripts:
-            rc, o = sh(f"bash {out}/{sc}", out, timeout=3000)
+            rc, o = sh(f"bash {out}/{sc} {wt}", out, timeout=3000)
             ok = ok and rc == 0; outp += o
     return ok, outp
 def place(remove=False):
@@ -86,11 +89,11 @@ if rc == 0:
                 res["checks"][c]["replay"] = str(e)
     sh("git -C /repo checkout -- .")
 print(json.dumps(res, indent=1))
-sd = f"/verif/seeded/{prop}-{n}"
+sd = f"/verif/seeded/{prop}-{LABEL}"
 os.makedirs(sd, exist_ok=True)
 shutil.copyfile(patch, f"{sd}/patch.diff")
 for d in demo:
-    if os.path.isfile(f"{out}/{d}"): shutil.copyfile(f"{out}/{d}", f"{sd}/{d}")
+    if os.path.isfile(f"{out}/{d}") and os.path.getsize(f"{out}/{d}") < 200000: shutil.copyfile(f"{out}/{d}", f"{sd}/{d}")
 if os.path.exists(f"{out}/mut{n}.md"): shutil.copyfile(f"{out}/mut{n}.md", f"{sd}/notes.md")
 elif os.path.exists(f"{out}/notes.md"): shutil.copyfile(f"{out}/notes.md", f"{sd}/notes.md")
 json.dump(res, open(f"{sd}/meta.json", "w"), indent=1)
